@@ -340,6 +340,20 @@ func genPool(g *hx.Gen) {
 		g.Stat("pool.around-bound")
 	}
 	dom := r.Range(1, 150)
+	if r.Chance(1, 3) { // exactly k distinct values around the bound, then repeats and newcomers
+		k := hx.Pick(r, []int{99, 100, 100, 101, 102, 130})
+		off := r.Intn(1000)
+		for i := 0; i < k; i++ {
+			ops = append(ops, fmt.Sprintf("a:w%d", off+i))
+		}
+		dom, n = k+5, r.Range(0, 10)
+		for i := 0; i < n; i++ {
+			ops = append(ops, fmt.Sprintf("a:w%d", off+r.Intn(dom)))
+		}
+		ops = append(ops, "d")
+		g.Stat("pool.exactly-k-distinct")
+		n = r.Range(0, 5)
+	}
 	for i := 0; i < n; i++ {
 		switch c := r.Intn(30); {
 		case c < 1:
@@ -357,7 +371,7 @@ func genPool(g *hx.Gen) {
 }
 
 func gen(g *hx.Gen) {
-	n := g.Count(6000, 300000)
+	n := g.Count(6000, 700000)
 	for i := 0; i < n; i++ {
 		if i%10 == 9 {
 			genPool(g)
